@@ -29,6 +29,7 @@ type gcase struct {
 	Sims        []ref.SimResult
 	StepLim     int
 	Prescreened int
+	Derived     map[string]bool // inputs that are sentences by construction (too long for the Earley recognizer)
 	Job         *pipe.Job
 	Outs        map[pipe.Variant]*pipe.Out
 }
@@ -160,6 +161,83 @@ func (c *gcase) genInputs(r *rand.Rand, maxStrings, nLong int) {
 		}
 		add(m)
 	}
+	// a few deep sentences (hundreds of tokens: stack growth, long derivations)
+	if nLong > 0 {
+		for i := 0; i < 2; i++ {
+			s := c.deepSentence(r, minLen, 150+r.Intn(500))
+			if len(s) < 100 {
+				continue
+			}
+			// a sentence by construction: its derivation is the membership proof (the Earley
+			// recognizer is quadratic to cubic at this length)
+			if add(s) {
+				if c.Derived == nil {
+					c.Derived = map[string]bool{}
+				}
+				c.Derived[fmt.Sprint(s)] = true
+			}
+		}
+	}
+}
+
+// deepSentence derives a sentence of about target tokens, preferring rules
+// that keep the derivation going until the target is in reach.
+func (c *gcase) deepSentence(r *rand.Rand, minLen []int, target int) []int {
+	g := c.RG
+	form := []int{g.Rules[0].Rhs[0]}
+	var out []int
+	for steps := 0; len(form) > 0; steps++ {
+		if steps > 40*target || len(form) > 4*target {
+			return nil
+		}
+		s := form[0]
+		form = form[1:]
+		if !g.IsNT[s] {
+			out = append(out, s)
+			continue
+		}
+		rest := 0
+		for _, x := range form {
+			rest += minLen[x]
+		}
+		rules := g.RulesOf(s)
+		minOf := func(ri int) int {
+			l := 0
+			for _, x := range g.Rules[ri].Rhs {
+				l += minLen[x]
+			}
+			return l
+		}
+		pick := rules[0]
+		if len(out)+rest >= target {
+			for _, ri := range rules {
+				if minOf(ri) < minOf(pick) {
+					pick = ri
+				}
+			}
+		} else {
+			// prefer rules with nonterminals on the right
+			var rec []int
+			for _, ri := range rules {
+				for _, x := range g.Rules[ri].Rhs {
+					if g.IsNT[x] && minOf(ri) < 1<<20 {
+						rec = append(rec, ri)
+						break
+					}
+				}
+			}
+			if len(rec) > 0 && r.Intn(8) != 0 {
+				pick = rec[r.Intn(len(rec))]
+			} else {
+				pick = rules[r.Intn(len(rules))]
+			}
+			if minOf(pick) >= 1<<20 {
+				return nil
+			}
+		}
+		form = append(append([]int{}, g.Rules[pick].Rhs...), form...)
+	}
+	return out
 }
 
 func (c *gcase) minLens() []int {
@@ -257,7 +335,10 @@ func (c *gcase) prepare() {
 func (c *gcase) judgeInputs() {
 	rmax := 0
 	for _, in := range c.Inputs {
-		acc, bad := c.earley(in)
+		acc, bad := true, -1
+		if !c.Derived[fmt.Sprint(in)] {
+			acc, bad = c.earley(in)
+		}
 		c.Member = append(c.Member, acc)
 		c.Bad = append(c.Bad, bad)
 		var sim ref.SimResult
@@ -269,9 +350,15 @@ func (c *gcase) judgeInputs() {
 		}
 		c.Sims = append(c.Sims, sim)
 	}
-	c.StepLim = 200 + 4*rmax
+	lmax := 0
+	for _, in := range c.Inputs {
+		if len(in) > lmax {
+			lmax = len(in)
+		}
+	}
+	c.StepLim = 200 + 4*rmax + 2*lmax
 	if c.Tab == nil || !c.Clean {
-		c.StepLim = 2000
+		c.StepLim = 2000 + 8*lmax
 	}
 }
 
